@@ -109,6 +109,12 @@ theorem ehep_I_energy (p : EHEP.P) (x t : ℝ) (hD : p.D ≠ 0) (ht : t ≠ 0)
   field_simp
   ring
 
+/-- non-vacuity: the hypotheses of the region I theorems hold at the default parameters -/
+example : ∃ (p : EHEP.P) (x t : ℝ), p.D ≠ 0 ∧ t ≠ 0 ∧ EHEP.L23.density p x t ≠ 0 ∧ p.gamma = 3 := by
+  refine ⟨⟨17/20, 3, 0, 8/5, 10, 1/20, 10, 1⟩, 7/10, 1, ?_⟩
+  simp only [epv_leaf]
+  norm_num
+
 /-! ### region II (leaf 22) -/
 
 theorem ehep_II_riemann (p : EHEP.P) (x t : ℝ) (hD : p.D ≠ 0) (ht : t ≠ 0) (h2 : t - p.xtilde / p.D ≠ 0) :
@@ -178,6 +184,12 @@ theorem ehep_II_energy (p : EHEP.P) (x t : ℝ) (hD : p.D ≠ 0) (ht : t ≠ 0) 
   have ⟨h2a, h2b⟩ := ehep_aux p.D t p.xtilde hD h2
   field_simp
   ring
+
+/-- non-vacuity: the hypotheses of the region II theorems hold at the default parameters -/
+example : ∃ (p : EHEP.P) (x t : ℝ), p.D ≠ 0 ∧ t ≠ 0 ∧ t - p.xtilde / p.D ≠ 0 ∧ EHEP.L22.density p x t ≠ 0 ∧ p.gamma = 3 := by
+  refine ⟨⟨17/20, 3, 0, 8/5, 10, 1/20, 10, 1⟩, 6/5, 8/5, ?_⟩
+  simp only [epv_leaf]
+  norm_num
 
 /-! ### region III (leaf 19) -/
 
@@ -249,6 +261,12 @@ theorem ehep_III_energy (p : EHEP.P) (x t : ℝ) (hD : p.D ≠ 0)
   field_simp
   ring
 
+/-- non-vacuity: the hypotheses of the region III theorems hold at the default parameters -/
+example : ∃ (p : EHEP.P) (x t : ℝ), p.D ≠ 0 ∧ EHEP.L19.density p x t ≠ 0 ∧ p.gamma = 3 := by
+  refine ⟨⟨17/20, 3, 0, 8/5, 10, 1/20, 10, 1⟩, 3/10, 1, ?_⟩
+  simp only [epv_leaf]
+  norm_num
+
 /-! ### region IV (leaf 18) -/
 
 theorem ehep_IV_riemann (p : EHEP.P) (x t : ℝ) (hD : p.D ≠ 0) (h4 : p.D * t - p.xtilde ≠ 0) :
@@ -319,6 +337,12 @@ theorem ehep_IV_energy (p : EHEP.P) (x t : ℝ) (hD : p.D ≠ 0) (h4 : p.D * t -
   field_simp
   ring
 
+/-- non-vacuity: the hypotheses of the region IV theorems hold at the default parameters -/
+example : ∃ (p : EHEP.P) (x t : ℝ), p.D ≠ 0 ∧ p.D * t - p.xtilde ≠ 0 ∧ EHEP.L18.density p x t ≠ 0 ∧ p.gamma = 3 := by
+  refine ⟨⟨17/20, 3, 0, 8/5, 10, 1/20, 10, 1⟩, 3/2, 3, ?_⟩
+  simp only [epv_leaf]
+  norm_num
+
 /-! ### region V (leaf 17) -/
 
 theorem ehep_V_riemann (p : EHEP.P) (x t : ℝ) (hD : p.D ≠ 0) (h2 : t - p.xtilde / p.D ≠ 0) :
@@ -377,7 +401,7 @@ theorem ehep_V_energy (p : EHEP.P) (x t : ℝ) (hD : p.D ≠ 0) (h2 : t - p.xtil
       (EHEP.L17.specific_internal_energy p) 0 x t = 0 := by
   simp only [energyResE, dr, dt]
   rw [(EHEP.L17.specific_internal_energy_hasDerivAt_t p x t h2 hρ).deriv,
-    (EHEP.L17.specific_internal_energy_hasDerivAt_x p x t hρ).deriv,
+    (EHEP.L17.specific_internal_energy_hasDerivAt_x p x t).deriv,
     (EHEP.L17.velocity_hasDerivAt_x p x t).deriv]
   simp only [epv_deriv, epv_leaf, hγ] at hρ ⊢
   have hρ0 : p.rho_0 ≠ 0 := by
@@ -388,5 +412,11 @@ theorem ehep_V_energy (p : EHEP.P) (x t : ℝ) (hD : p.D ≠ 0) (h2 : t - p.xtil
   have ⟨h2a, h2b⟩ := ehep_aux p.D t p.xtilde hD h2
   field_simp
   ring
+
+/-- non-vacuity: the hypotheses of the region V theorems hold at the default parameters -/
+example : ∃ (p : EHEP.P) (x t : ℝ), p.D ≠ 0 ∧ t - p.xtilde / p.D ≠ 0 ∧ EHEP.L17.density p x t ≠ 0 ∧ p.gamma = 3 := by
+  refine ⟨⟨17/20, 3, 0, 8/5, 10, 1/20, 10, 1⟩, 1, 5, ?_⟩
+  simp only [epv_leaf]
+  norm_num
 
 end EPV.C01
